@@ -230,10 +230,10 @@ pub const H_SLL: u8 = 1;
 pub const H_MSC: u8 = 2;
 
 pub fn sll_dims(shape: u16) -> (usize, usize) {
-    ((shape & 7) as usize, ((shape >> 3) & 7) as usize)
+    ((shape & 15) as usize, ((shape >> 4) & 15) as usize)
 }
 pub fn sll_shape(i: usize, t: usize, opts: u16) -> u16 {
-    (i as u16) | ((t as u16) << 3) | (opts << 6)
+    (i as u16) | ((t as u16) << 4) | (opts << 8)
 }
 pub fn sll_cell(f: &Fill, i: usize, j: usize) -> u16 {
     f.u16(4).wrapping_add(((i * 4 + j) as u16).wrapping_mul(0x0101))
@@ -268,10 +268,10 @@ pub fn real_sll_new(f: &Fill, shape: u16) -> hmat::SystemLocality {
 pub fn real_sll(f: &Fill, shape: u16) -> hmat::SystemLocality {
     let (ni, nt) = sll_dims(shape);
     let mut s = real_sll_new(f, shape);
-    if shape & 0x40 != 0 {
+    if shape & 0x100 != 0 {
         s.non_sequential_transfers();
     }
-    if shape & 0x80 != 0 {
+    if shape & 0x200 != 0 {
         s.minimum_transfer_size_required();
     }
     for i in 0..ni {
@@ -292,10 +292,10 @@ pub fn real_sll(f: &Fill, shape: u16) -> hmat::SystemLocality {
 pub fn ref_sll_with(w: &mut W, f: &Fill, shape: u16, inits: &[u32], tgts: &[u32], cells: &[u16]) {
     let (ni, nt) = sll_dims(shape);
     let mut flags = f.e(0, 4) as u8;
-    if shape & 0x40 != 0 {
+    if shape & 0x100 != 0 {
         flags |= 0x20; // bit 5: non-sequential transfers
     }
-    if shape & 0x80 != 0 {
+    if shape & 0x200 != 0 {
         flags |= 0x10; // bit 4: minimum transfer size required
     }
     w.u16(1).u16(0).u32((32 + 4 * ni + 4 * nt + 2 * ni * nt) as u32);
@@ -335,7 +335,7 @@ pub fn real_msc(f: &Fill, n: u16) -> hmat::MemorySideCache {
         f.u16(6),
     );
     for i in 0..n {
-        m.add_smbios_handle(f.u16(7 + i as u8));
+        m.add_smbios_handle(f.u16(7 + (i % 8) as u8).wrapping_add(i / 8));
     }
     m
 }
@@ -353,7 +353,7 @@ pub fn hmat_ref_entry(w: &mut W, op: &Op) {
             let attr = (f.e(2, 4) as u32) | ((f.e(3, 4) as u32) << 4) | ((f.e(4, 3) as u32) << 8) | ((f.e(5, 3) as u32) << 12) | ((f.u16(6) as u32) << 16);
             w.u16(2).u16(0).u32((32 + 2 * n) as u32).u32(f.u32(0)).u32(0).u64(f.u64(1)).u32(attr).u16(0).u16(n as u16);
             for i in 0..n {
-                w.u16(f.u16(7 + i as u8));
+                w.u16(f.u16(7 + (i % 8) as u8).wrapping_add((i / 8) as u16));
             }
         }
         _ => unreachable!(),
@@ -385,6 +385,11 @@ impl Table for Hmat {
         for (n, f) in fills(level).iter().enumerate() {
             v.push(Op::new(H_MSC, (n % 3) as u16, *f));
             v.push(Op::new(H_MSC, ((n + 2) % 3) as u16, *f));
+        }
+        if !_h.iter().any(|o| (o.k == H_MSC && o.shape >= 100) || (o.k == H_SLL && sll_dims(o.shape).0 > 8)) {
+            // structures longer than 255 bytes
+            v.push(Op::new(H_MSC, 120, fills(level)[0]));
+            v.push(Op::new(H_SLL, sll_shape(9, 10, 1), fills(level)[0]));
         }
         v
     }
@@ -476,7 +481,7 @@ impl Table for Hmat {
             H_SLL => vec![E(4), E(6), E(12), U(64), U(16), U(32), U(32)],
             _ => {
                 let mut v = vec![U(32), U(64), E(4), E(4), E(3), E(3), U(16)];
-                for _ in 0..s {
+                for _ in 0..s.min(8) {
                     v.push(U(16));
                 }
                 v
@@ -492,9 +497,10 @@ impl Table for Hmat {
                         v.push(sll_shape(i, t, ((i + t) % 4) as u16));
                     }
                 }
+                v.push(sll_shape(9, 10, 3));
                 v
             }
-            H_MSC => vec![0, 1, 2, 3],
+            H_MSC => vec![0, 1, 2, 3, 120],
             _ => vec![0],
         }
     }
